@@ -28,7 +28,8 @@ package importcache
 // the deferred clean-up: when add() failed (or panicked) `adding` is still set: remove the marker; always unlock.
 //@ func (*importCache).getOrAdd$1()
 //@   tags C11, C10
-//@   requires service != nil && service.cache != nil
+//@   requires service != nil && service.cache != nil && service.cond != nil
 //@   assigns fresh-only
-//@   modifies MD|map_string_rel.Expr, ML|map_string_rel.Expr, MV|map_string_rel.Expr
-//@   ensures[C11] c11unit: true
+//@   modifies woken, MD|map_string_rel.Expr, ML|map_string_rel.Expr, MV|map_string_rel.Expr
+//@   ensures[C11] wakes: adding ==> woken[service.cond] > old(woken)[service.cond]
+//@   ensures[C11] keeps: !adding ==> woken == old(woken)
